@@ -214,6 +214,23 @@ class World(object):
             type("I%d_%s" % (cid, tag), (self.specset,), {"p%d" % s["impl_of"]: comp})
         return comp
 
+    # -- late registration: an EXISTING datasource becomes one more implementation of a registry point
+    def late_candidates(self, keys):
+        """(point id, datasource id) pairs, both among `keys`, where the datasource can still be registered"""
+        out = []
+        for p, s in enumerate(self.spec):
+            if s["kind"] != "point" or p not in keys:
+                continue
+            have = set(self.ids[x] for x in dr.get_delegate(self.comps[p]).at_least_one[0])
+            for d in range(p):
+                if d in keys and d not in have and self.spec[d]["kind"] == "datasource":
+                    out.append((p, d))
+        return out
+
+    def late_register(self, p, d):
+        self._late = getattr(self, "_late", 0) + 1
+        type("L%d_%d" % (self._late, id(self)), (self.specset,), {"p%d" % p: self.comps[d]})
+
     # -- running
     def graph_for(self, targets):
         g = {}
@@ -525,6 +542,11 @@ def rebuild(case):
     _replay_counter[0] += 1
     world = World(unstrip(case["spec"]), "replay%d" % _replay_counter[0])
     seeds = [tuple(s) for s in case.get("seeds", [])]
+    if case.get("late"):
+        # the recorded history: evaluate once, register late, then the recorded evaluation
+        g1 = world.graph_for(case["targets"])
+        evaluate(world, seeds, case.get("store_skips", False), g1, mode="run")
+        world.late_register(*case["late"])
     graph = world.graph_for(case["targets"])
     return world, seeds, graph
 
@@ -535,9 +557,9 @@ def generic_replay(data, oracle):
     print("replaying case with %d components, targets %s, order %s" % (len(case["spec"]), case.get("targets"), case.get("order")))
     world, seeds, graph = rebuild(case)
     order = None
-    if case.get("order") is not None:
+    if case.get("order") is not None and not case.get("late"):
         order = [world.comps[i] for i in case["order"]]
-    r = evaluate(world, seeds, case.get("store_skips", False), graph, order=order)
+    r = evaluate(world, seeds, case.get("store_skips", False), graph, order=order, mode="run" if case.get("late") else "components")
     print("implementation:", r.text)
     found = []
 
